@@ -80,11 +80,32 @@ def score(beh, focus):
             elif a == "Reopen":
                 sc += 0.2
         return sc
+    if focus == "reopen":
+        # commits, then a reopen, then rollbacks / commits that depend on what the reopen reloaded
+        sc, commits, reopened_after = 0, 0, False
+        for s in beh:
+            a, ok = s["a"], s.get("res", "Ok") == "Ok"
+            if a in ("Commit", "TryCommit", "OverlayCommit", "OverlayTryCommit") and ok:
+                commits += 1
+                sc += 1 + (2 if reopened_after else 0)
+            elif a == "Reopen":
+                if commits:
+                    reopened_after = True
+                    sc += 1
+            elif a == "Rollback" and ok:
+                sc += 6 if reopened_after else 1
+                commits = max(0, commits - s.get("n", 1))
+        return sc
     sc = 0
     fin_w, ovl_w, sess_chain = {}, {}, {}
     committed_keys = set()
+    rejected_ovls = set()
     for s in beh:
         a = s["a"]
+        if a == "Begin" and s.get("chain") and rejected_ovls:
+            # a session is attempted on descendants after an overlay commit was rejected (does the rejected
+            # overlay count as committed for its children?)
+            sc += 12
         if a == "Begin" and s.get("res") == "Ok":
             sess_chain[s["s"]] = list(s.get("chain") or [])
             if s.get("chain"):
@@ -111,6 +132,8 @@ def score(beh, focus):
             sc += 1
         elif a in ("OverlayCommit", "OverlayTryCommit"):
             sc += 3 if s.get("res") == "Ok" else 2
+            if s.get("res") in ("Stale", "ParentNotCommitted"):
+                rejected_ovls.add(s["o"])
             if s.get("res") == "Ok":
                 for k, v in ovl_w.get(s["o"], {}).items():
                     if v not in ("NoCh", "Nil"):
@@ -148,6 +171,7 @@ VTABLES = {
     "edge": {"v1": "inline-max", "v2": "overflow-min", "v3": "tiny"},
     "ovf": {"v1": "two-page", "v2": "tiny", "v3": "one-page"},
     "empty": {"v1": "empty", "v2": "tiny", "v3": "small"},
+    "empty2": {"v1": "tiny", "v2": "empty", "v3": "small"},
     "big": {"v1": "cell-max", "v2": "indirect", "v3": "tiny"},
     "huge": {"v1": "huge", "v2": "overflow-min", "v3": "empty"},
     # mixed groups: one member in eight carries an overflow value, the others are small (so that
@@ -237,37 +261,79 @@ def twin_without_rejected(beh):
 
 
 def twin_without_reopen(beh):
-    """Remove Close;Reopen pairs that happen while the user holds nothing (no live overlay, session or
-    changeset can survive a Close, so only pairs with nothing outstanding are removable)."""
+    """The same behaviour with every Close;Reopen pair replaced by what closing means for the handles the user
+    holds (changesets and overlays are dropped; a Close is only legal without live sessions).  Overlay identifiers
+    are not recycled without a Close, so later overlays are renumbered.  By NomtApi!ReopenTransparent both
+    behaviours must be indistinguishable afterwards (validate the twin with a larger MaxOvl)."""
     out = []
     changed = False
-    held = 0
-    ovl_ids_used = False   # overlay identifiers are only recycled by Close: keep the pair then
+    fins, ovls = set(), set()
+    epoch_ovls = 0       # overlays allocated since the last (removed or kept) Close
+    offset = 0
     i = 0
+    def mo(o):
+        return o + offset if o else o
     while i < len(beh):
-        s = beh[i]
+        s = dict(beh[i])
         a = s["a"]
-        if a == "Close" and i + 1 < len(beh) and beh[i + 1]["a"] == "Reopen" and held == 0 and not ovl_ids_used:
+        if a == "Close" and i + 1 < len(beh) and beh[i + 1]["a"] == "Reopen":
+            for f in sorted(fins):
+                out.append({"a": "DropFinished", "f": f})
+            for o in sorted(ovls):
+                out.append({"a": "DropOverlay", "o": o + offset})
+            fins, ovls = set(), set()
+            offset += epoch_ovls
+            epoch_ovls = 0
             changed = True
             i += 2
             continue
-        if a == "IntoOverlay":
-            ovl_ids_used = True
         if a == "Close":
-            ovl_ids_used = False
-        if a == "Begin" and s.get("res") == "Ok":
-            held += 1
-        elif a in ("DropSession", "DropFinished", "DropOverlay"):
-            held -= 1
-        elif a in ("Commit", "OverlayCommit"):
-            held -= 1
-        elif a in ("TryCommit", "OverlayTryCommit") and s.get("res") != "HandedBack":
-            held -= 1
-        elif a == "Close":
-            held = 0
-        out.append(dict(s))
+            # an unpaired Close at the end of the behaviour
+            fins, ovls = set(), set()
+            offset, epoch_ovls = 0, 0
+        if "o" in s:
+            s["o"] = mo(s["o"])
+        if s.get("chain"):
+            s["chain"] = [mo(o) for o in s["chain"]]
+        if a == "Finish":
+            fins.add(s["f"])
+        elif a == "DropFinished":
+            fins.discard(s["f"])
+        elif a in ("Commit", "TryCommit") and s.get("res") != "HandedBack":
+            fins.discard(s["f"])
+        elif a == "IntoOverlay":
+            fins.discard(s["f"])
+            ovls.add(beh[i]["o"])
+            epoch_ovls = max(epoch_ovls, beh[i]["o"])
+        elif a == "DropOverlay":
+            ovls.discard(beh[i]["o"])
+        elif a in ("OverlayCommit", "OverlayTryCommit") and s.get("res") != "HandedBack":
+            ovls.discard(beh[i]["o"])
+        out.append(s)
         i += 1
     return out if changed else None
+
+
+def overlay_templates(keys):
+    """A few hand-written overlay behaviours (legal NomtApi behaviours; ApiTrace validates them like the generated ones):
+    a committed key is deleted / overwritten in an overlay and a session on top of that overlay touches its neighbours."""
+    N = {k: "NoCh" for k in keys}
+    out = []
+    for a, b in [(keys[0], keys[1]), (keys[1], keys[0]), (keys[0], keys[2]), (keys[2], keys[1])]:
+        for first, second in [("Nil", "v1"), ("v2", "Nil"), ("Nil", "Nil")]:
+            beh = [dict(a="Begin", s=1, chain=[], res="Ok"), dict(a="Finish", s=1, f=1, w=dict(N, **{a: "v1", b: "v2"})),
+                   dict(a="Commit", f=1, res="Ok"),
+                   dict(a="Begin", s=1, chain=[], res="Ok"), dict(a="Finish", s=1, f=1, w=dict(N, **{a: first})),
+                   dict(a="IntoOverlay", f=1, o=1),
+                   dict(a="Begin", s=1, chain=[1], res="Ok"), dict(a="Finish", s=1, f=1, w=dict(N, **{b: second})),
+                   dict(a="IntoOverlay", f=1, o=2),
+                   dict(a="Begin", s=1, chain=[2, 1], res="Ok"), dict(a="Finish", s=1, f=1, w=dict(N, **{a: "v2"})),
+                   dict(a="IntoOverlay", f=1, o=3),
+                   dict(a="OverlayCommit", o=1, res="Ok"), dict(a="OverlayTryCommit", o=2, res="Ok"),
+                   dict(a="Rollback", n=1, res="Ok"),
+                   dict(a="Close"), dict(a="Reopen")]
+            out.append(beh)
+    return out
 
 
 # ----------------------------------------------------------------------------------------------
@@ -363,17 +429,41 @@ def validate_runs(run_ids, runs, consts, tag, max_rejections=25):
         # position inside the run
         first = index.index(bad_run)
         pos = d - 1 - first
-        # attribute: which class of check fails at this record?  validate this run alone with one
-        # class relaxed at a time
+        # attribute: which classes of check fail at this record?  validate this run alone: with every class relaxed
+        # (rejected anyway -> the outcome itself is not a NomtApi behaviour), then with all but one class relaxed
         single = os.path.join(tdir, "trace_%s_single.ndjson" % tag)
         write_trace(single, [bad_run], runs)
-        cls = "outcome"
-        for c in CLASSES:
-            vv = C.validate_trace(single, trace_cfg(consts, tag + "_relax", relax=(c,)))
-            if vv["accepted"] or vv["rejected_at"] > pos + 1:
-                cls = c
+
+        def failing_classes(at, already=()):
+            allc = tuple(CLASSES)
+            vv = C.validate_trace(single, trace_cfg(consts, tag + "_relax", relax=allc))
+            if not (vv["accepted"] or vv["rejected_at"] > at + 1):
+                return ["outcome"]
+            out = []
+            for c in CLASSES:
+                if c in already:
+                    continue
+                rel = tuple(x for x in CLASSES if x != c)
+                vv = C.validate_trace(single, trace_cfg(consts, tag + "_relax", relax=rel))
+                if not vv["accepted"] and vv["rejected_at"] == at + 1:
+                    out.append(c)
+            return out or ["outcome"]
+
+        classes = failing_classes(pos)
+        rejections.append(dict(run=bad_run, pos=pos, record=runs[bad_run][pos], cls=classes[0], classes=classes))
+        # the rest of this run: keep validating with the failing classes relaxed, so that a defect that shows in
+        # several observables at different steps is seen under each of them
+        relaxed = list(classes)
+        while "outcome" not in relaxed and len(relaxed) < 6:
+            vv = C.validate_trace(single, trace_cfg(consts, tag + "_relax", relax=tuple(relaxed)))
+            if vv["accepted"]:
                 break
-        rejections.append(dict(run=bad_run, pos=pos, record=runs[bad_run][pos], cls=cls))
+            pos2 = vv["rejected_at"] - 1
+            cl2 = failing_classes(pos2, already=tuple(relaxed))
+            rejections.append(dict(run=bad_run, pos=pos2, record=runs[bad_run][pos2], cls=cl2[0], classes=cl2))
+            if "outcome" in cl2:
+                break
+            relaxed.extend(cl2)
         # everything before the bad run was accepted in this pass
         cut = remaining.index(bad_run)
         accepted.extend(remaining[:cut])
@@ -381,6 +471,25 @@ def validate_runs(run_ids, runs, consts, tag, max_rejections=25):
         if len(rejections) >= max_rejections:
             break
     return accepted, rejections
+
+
+CLASS_PROP = {"root": "C02", "proof": "C05", "wit": "C06", "dec": "C16", "alloc": "C19"}
+
+
+def attribute_all(rej, script_steps):
+    """Every property a rejection contradicts: one per failing observable class that belongs to a property of its own,
+    plus the property of the call itself when the remaining classes (values, seqn, outcome ...) fail."""
+    props = set()
+    rest = []
+    for c in rej.get("classes") or [rej["cls"]]:
+        if c in CLASS_PROP:
+            props.add(CLASS_PROP[c])
+        else:
+            rest.append(c)
+    if rest or not props:
+        r2 = dict(rej, cls=rest[0] if rest else rej["cls"])
+        props.add(attribute(r2, script_steps))
+    return props
 
 
 def attribute(rej, script_steps):
